@@ -8,7 +8,7 @@ ASSUME_COMMON = [
 PROPS = {}
 
 PROPS["C14"] = dict(
-    name="c14", sources=["props/c14.cpp"], engine="enumerator",
+    name="c14", thorough_rounds=8, sources=["props/c14.cpp"], engine="enumerator",
     builds=[("asan", "native"), ("asan", "noasm"), ("asan", "noti")],
     builds_thorough=[("asan", "native"), ("asan", "noasm"), ("asan", "noti"), ("asan", "portable"), ("plain", "native")],
     level="exploration",
@@ -23,7 +23,7 @@ PROPS["C14"] = dict(
 
 
 PROPS["C03"] = dict(
-    name="c03", sources=["props/c03.cpp"], engine="enumerator",
+    name="c03", thorough_rounds=20, sources=["props/c03.cpp"], engine="enumerator",
     builds=[("asan", "native"), ("asan", "noasm")],
     builds_thorough=[("asan", "native"), ("asan", "noasm"), ("asan", "portable"), ("asan", "noti"), ("plain", "native")],
     level="exploration",
@@ -40,7 +40,7 @@ PROPS["C03"] = dict(
 )
 
 PROPS["C15"] = dict(
-    name="c15", sources=["props/c15.cpp"], engine="enumerator",
+    name="c15", thorough_rounds=30, sources=["props/c15.cpp"], engine="enumerator",
     builds=[("asan", "native")],
     builds_thorough=[("asan", "native"), ("asan", "portable"), ("plain", "native")],
     level="exploration",
@@ -57,7 +57,7 @@ PROPS["C15"] = dict(
 )
 
 PROPS["C16"] = dict(
-    name="c16", sources=["props/c16.cpp"], engine="enumerator",
+    name="c16", thorough_rounds=4, sources=["props/c16.cpp"], engine="enumerator",
     builds=[("asan", "native")],
     builds_thorough=[("asan", "native"), ("asan", "portable"), ("plain", "native")],
     level="exploration",
@@ -71,7 +71,7 @@ PROPS["C16"] = dict(
 )
 
 PROPS["C17"] = dict(
-    name="c17", sources=["props/c17.cpp"], engine="enumerator",
+    name="c17", thorough_rounds=5, sources=["props/c17.cpp"], engine="enumerator",
     builds=[("plain", "native")],
     builds_thorough=[("plain", "native"), ("plainclang", "native"), ("plain", "portable")],
     level="exploration",
@@ -86,7 +86,7 @@ PROPS["C17"] = dict(
 )
 
 PROPS["C13"] = dict(
-    name="c13", sources=["props/c13.cpp"], engine="enumerator",
+    name="c13", thorough_rounds=5, sources=["props/c13.cpp"], engine="enumerator",
     builds=[("asan", "native"), ("asan", "noasm")],
     builds_thorough=[("asan", "native"), ("asan", "noasm"), ("asan", "portable"), ("asan", "noti")],
     level="exploration",
@@ -101,7 +101,7 @@ PROPS["C13"] = dict(
 )
 
 PROPS["C02"] = dict(
-    name="c02", sources=["props/c02.cpp"], engine="enumerator",
+    name="c02", thorough_rounds=1, sources=["props/c02.cpp"], engine="enumerator",
     builds=[("asan", "native")],
     builds_thorough=[("asan", "native"), ("asan", "noasm"), ("asan", "portable")],
     level="exploration",
@@ -118,7 +118,7 @@ PROPS["C02"] = dict(
 )
 
 PROPS["C18"] = dict(
-    name="c18", sources=["props/c18.cpp"], engine="enumerator",
+    name="c18", thorough_rounds=30, sources=["props/c18.cpp"], engine="enumerator",
     builds=[("asan", "native")],
     builds_thorough=[("asan", "native"), ("asan", "portable")],
     level="exploration",
@@ -135,7 +135,7 @@ PROPS["C18"] = dict(
 )
 
 PROPS["C04"] = dict(
-    name="c04", sources=["props/c04.cpp"], engine="rapidcheck + enumerator", libs=["-lrapidcheck"],
+    name="c04", thorough_rounds=8, sources=["props/c04.cpp"], engine="rapidcheck + enumerator", libs=["-lrapidcheck"],
     builds=[("asan", "native"), ("asan", "noti")],
     builds_thorough=[("asan", "native"), ("asan", "noti"), ("asan", "noasm"), ("asan", "portable")],
     level="exploration",
@@ -152,7 +152,7 @@ PROPS["C04"] = dict(
 )
 
 PROPS["C01"] = dict(
-    name="c01", sources=["props/c01.cpp"], engine="enumerator",
+    name="c01", thorough_rounds=1, sources=["props/c01.cpp"], engine="enumerator",
     builds=[("asan", "native"), ("asan", "noasm")],
     builds_thorough=[("asan", "native"), ("asan", "noasm"), ("asan", "noti"), ("asan", "portable")],
     level="exploration",
@@ -169,7 +169,7 @@ PROPS["C01"] = dict(
 )
 
 PROPS["C05"] = dict(
-    name="c05", sources=["props/c05.cpp"], engine="rapidcheck + enumerator", libs=["-lrapidcheck"], cflags=["-O2"],
+    name="c05", thorough_rounds=3, sources=["props/c05.cpp"], engine="rapidcheck + enumerator", libs=["-lrapidcheck"], cflags=["-O2"],
     builds=[("asan", "native"), ("asan", "noti")],
     builds_thorough=[("asan", "native"), ("asan", "noti"), ("asan", "portable"), ("asan", "noasm")],
     level="exploration",
@@ -184,7 +184,7 @@ PROPS["C05"] = dict(
 )
 
 PROPS["C06"] = dict(
-    name="c06", sources=["props/c06.cpp"], engine="rapidcheck + enumerator", libs=["-lrapidcheck"], cflags=["-O2"],
+    name="c06", thorough_rounds=2, sources=["props/c06.cpp"], engine="rapidcheck + enumerator", libs=["-lrapidcheck"], cflags=["-O2"],
     builds=[("asan", "native")],
     builds_thorough=[("asan", "native"), ("asan", "noti"), ("asan", "portable")],
     level="exploration",
@@ -201,7 +201,7 @@ PROPS["C06"] = dict(
 )
 
 PROPS["C07"] = dict(
-    name="c07", sources=["props/c07.cpp"], engine="rapidcheck + enumerator", libs=["-lrapidcheck"], cflags=["-O2"],
+    name="c07", thorough_rounds=2, sources=["props/c07.cpp"], engine="rapidcheck + enumerator", libs=["-lrapidcheck"], cflags=["-O2"],
     builds=[("asan", "native"), ("asan", "noti")],
     builds_thorough=[("asan", "native"), ("asan", "noti"), ("asan", "portable"), ("asan", "noasm")],
     level="exploration",
@@ -219,7 +219,7 @@ PROPS["C07"] = dict(
 )
 
 PROPS["C08"] = dict(
-    name="c08", sources=["props/c08.cpp"], engine="rapidcheck + enumerator", libs=["-lrapidcheck"], cflags=["-O2"],
+    name="c08", thorough_rounds=6, sources=["props/c08.cpp"], engine="rapidcheck + enumerator", libs=["-lrapidcheck"], cflags=["-O2"],
     builds=[("asan", "native")],
     builds_thorough=[("asan", "native"), ("asan", "noasm"), ("asan", "portable")],
     level="exploration",
@@ -238,7 +238,7 @@ PROPS["C08"] = dict(
 )
 
 PROPS["C09"] = dict(
-    name="c09", sources=["props/c09.cpp"], engine="rapidcheck (operation histories) + enumerator", libs=["-lrapidcheck"],
+    name="c09", thorough_rounds=1, sources=["props/c09.cpp"], engine="rapidcheck (operation histories) + enumerator", libs=["-lrapidcheck"],
     builds=[("asan", "native")],
     builds_thorough=[("asan", "native"), ("asan", "noasm"), ("asan", "portable")],
     level="exploration",
@@ -255,7 +255,7 @@ PROPS["C09"] = dict(
 
 _WRAP = ["-Wl," + ",".join("--wrap=" + f for f in ["malloc", "calloc", "realloc", "posix_memalign", "aligned_alloc", "free", "mmap", "munmap"])]
 PROPS["C20"] = dict(
-    name="c20", sources=["props/c20.cpp"], engine="fault-position enumerator", ldflags=_WRAP, max_workers=8,
+    name="c20", thorough_rounds=1, sources=["props/c20.cpp"], engine="fault-position enumerator", ldflags=_WRAP, max_workers=8,
     builds=[("asan", "native")],
     builds_thorough=[("asan", "native"), ("asan", "portable")],
     level="fault_enumeration",
@@ -271,7 +271,7 @@ PROPS["C20"] = dict(
 )
 
 PROPS["C10"] = dict(
-    name="c10", sources=["props/c10.cpp"], engine="enumerator (deterministic corpus x configurations)",
+    name="c10", thorough_rounds=3, sources=["props/c10.cpp"], engine="enumerator (deterministic corpus x configurations)",
     builds=[("asan", "native"), ("asan", "noasm"), ("asan", "noti"), ("asan", "portable"), ("asan", "nosimd")],
     builds_thorough=[("asan", "native"), ("asan", "noasm"), ("asan", "noti"), ("asan", "portable"), ("asan", "nosimd"), ("plain", "native"), ("plain", "portable")],
     level="exploration",
@@ -288,7 +288,7 @@ PROPS["C10"] = dict(
 )
 
 PROPS["C12"] = dict(
-    name="c12", sources=["props/c12.cpp"], engine="enumerator + libFuzzer",
+    name="c12", thorough_rounds=1, sources=["props/c12.cpp"], engine="enumerator + libFuzzer",
     builds=[("asan", "native"), ("asan", "noasm"), ("asan", "portable")],
     builds_thorough=[("asan", "native"), ("asan", "noasm"), ("asan", "portable"), ("asan", "noti"), ("asan", "nosimd")],
     fuzz=dict(name="fuzz_api", sources=["fuzz/fuzz_api.cpp"], procs=8, runs_quick=25000, time_quick=45, runs_thorough=100000000, time_thorough=900, max_len=64),
@@ -307,7 +307,7 @@ PROPS["C12"] = dict(
 )
 
 PROPS["C19"] = dict(
-    name="c19", sources=["props/c19.cpp"], engine="generated thread schedules + ThreadSanitizer", replay_policy=(5, 2),
+    name="c19", thorough_rounds=3, sources=["props/c19.cpp"], engine="generated thread schedules + ThreadSanitizer", replay_policy=(5, 2),
     builds=[("tsan", "native")],
     builds_thorough=[("tsan", "native"), ("tsan", "portable")],
     level="exploration",
@@ -323,7 +323,7 @@ PROPS["C19"] = dict(
 )
 
 PROPS["C11"] = dict(
-    name="c11", sources=["props/c11.cpp"], engine="metamorphic trace-equality over generated secret pairs + valgrind definedness monitor", ldflags=["-no-pie"], cflags=["-fno-pie"],
+    name="c11", thorough_rounds=12, sources=["props/c11.cpp"], engine="metamorphic trace-equality over generated secret pairs + valgrind definedness monitor", ldflags=["-no-pie"], cflags=["-fno-pie"],
     builds=[("cov", "native"), ("cov", "noasm"), ("cov", "portable")],
     builds_thorough=[("cov", "native"), ("cov", "noasm"), ("cov", "portable"), ("cov", "noti")],
     level="exploration",
